@@ -5,7 +5,7 @@ from staticlib.session import get_session
 
 from ._purity import purity_findings
 from ._typing import vectorize_mode
-from .c01 import whole_column
+from .c01 import group_id_arithmetic, whole_column
 
 
 def check(ctx):
@@ -25,3 +25,4 @@ def check(ctx):
     for rid, loc, msg in p0:
         ctx.violation("P0", rid, loc, msg)
     whole_column(ctx, repo)
+    group_id_arithmetic(ctx, repo, "W5")
